@@ -1,0 +1,52 @@
+//go:build verif
+
+package gates
+
+// Exported wrappers and read-only accessors, compiled only with the `verif` build tag.
+
+import (
+	"sort"
+
+	gl "github.com/wormhole-foundation/example-near-light-client/goldilocks"
+)
+
+// VerifMatchingGateRegexes returns, in sorted order, the source text of every regular expression
+// of the gate table that matches gateId (a deterministic view of what GateInstanceFromId may pick).
+func VerifMatchingGateRegexes(gateId string) []string {
+	var out []string
+	for regex := range gateRegexHandlers {
+		if regex.FindStringSubmatch(gateId) != nil {
+			out = append(out, regex.String())
+		}
+	}
+	sort.Strings(out)
+	return out
+}
+
+// VerifGateRegexes returns the source text of all regular expressions of the gate table, sorted.
+func VerifGateRegexes() []string {
+	var out []string
+	for regex := range gateRegexHandlers {
+		out = append(out, regex.String())
+	}
+	sort.Strings(out)
+	return out
+}
+
+func (g *EvaluateGatesChip) VerifComputeFilter(row uint64, groupStart uint64, groupEnd uint64, s gl.QuadraticExtensionVariable, manySelector bool) gl.QuadraticExtensionVariable {
+	return g.computeFilter(row, Range{start: groupStart, end: groupEnd}, s, manySelector)
+}
+
+func (g *EvaluateGatesChip) VerifEvalFiltered(gate Gate, vars EvaluationVars, row uint64, selectorIndex uint64, groupStart uint64, groupEnd uint64, numSelectors uint64) []gl.QuadraticExtensionVariable {
+	return g.evalFiltered(gate, vars, row, selectorIndex, Range{start: groupStart, end: groupEnd}, numSelectors)
+}
+
+// VerifSelectorsInfo exposes the fields of a SelectorsInfo.
+func VerifSelectorsInfo(s SelectorsInfo) (selectorIndices []uint64, groupStarts []uint64, groupEnds []uint64) {
+	selectorIndices = append(selectorIndices, s.selectorIndices...)
+	for _, g := range s.groups {
+		groupStarts = append(groupStarts, g.start)
+		groupEnds = append(groupEnds, g.end)
+	}
+	return
+}
